@@ -84,11 +84,12 @@ def renderF (fc : List Event) (fcerr : String) (post : Inv) : String :=
 
 /-- class of a convergence failure. `stale-shard-kept` (the known finding) only if the shards to blame were already
     there before the run, carry a discovered repository's name and source and lay *outside* the contiguous shard run
-    `FindAllShards` sees for that repository in the prior state (so neither IndexState nor Builder.Finish ever look at
+    `FindAllShards` sees for that repository in the prior state minus the run's own removals (so neither IndexState nor Builder.Finish ever look at
     them), and the rest of the final inventory is as the statement demands. Anything else is `not-converged`. -/
-def convergenceKey (cwd : String) (desired : List Repo) (inv post : Inv) : String :=
-  let stray := post.filter fun s => inv.contains s && desired.any fun r =>
-    decide (ident cwd s = identR cwd r) && !((allShards inv r).contains s.path)
+def convergenceKey (cwd : String) (desired : List Repo) (inv : Inv) (removed : List String) (post : Inv) : String :=
+  let inv1 := inv.filter fun s => !removed.contains s.path      -- the prior state after the run's own removals
+  let stray := post.filter fun s => inv1.contains s && desired.any fun r =>
+    decide (ident cwd s = identR cwd r) && !((allShards inv1 r).contains s.path)
   let post' := post.filter (fun s => !stray.contains s)
   if !stray.isEmpty && converged cwd desired post' then "stale-shard-kept" else "not-converged"
 
@@ -118,7 +119,7 @@ def handle (line : String) : String :=
       | none => badCase "impl output"
       | some i =>
         if i.fcerr == "ok" && !(converged cwd desired (sortInv i.post)) then
-          specFail model (convergenceKey cwd desired inv (sortInv i.post))
+          specFail model (convergenceKey cwd desired inv (performedRemovals i.fc) (sortInv i.post))
         else answer model
     | _, _, _ => badCase "fields"
   | ["fremove", cwd, sels, ss] =>
